@@ -33,6 +33,8 @@ var lpCanon = map[string]string{
 	"jose": "jos\u00e9",
 	"jx":   "\u01f0x",      // LATIN SMALL LETTER J WITH CARON: no precomposed capital exists
 	"fw":   "\uff41\uff42", // fullwidth a b (a local part is free-form UTF-8)
+	"ist":  "istanbul",     // also spelled with U+0130 (dotted capital I), composed and decomposed
+	"sig":  "\u03b1\u03c3", // ends in sigma: context-sensitive lower-casing would make it final sigma
 }
 var labCanon = map[string]string{
 	"ex":  "example",
@@ -49,6 +51,9 @@ var labCanon = map[string]string{
 	"sd": "\u03bc\u03b1\u03c31",
 	"gs": "\u03b5\u03bb\u03bb\u03b1\u03c3",
 	"di": "k\u0131s", // dotless i: has no upper-case variant that folds back
+	"il": "istanbul", // ASCII label also spelled with U+0130, composed and decomposed
+	// the root label of the FQDN spelling "example.com.": the empty string after the last dot
+	"root": "",
 }
 
 var lpSpell = map[string][]string{
@@ -56,6 +61,8 @@ var lpSpell = map[string][]string{
 	"jose": {"lower", "upper", "nfd", "uppernfd"},
 	"jx":   {"lower", "nfd", "upperd"},
 	"fw":   {"lower", "upper"},
+	"ist":  {"lower", "upper", "updot", "updotnfd"},
+	"sig":  {"lower", "upper"},
 }
 var labSpell = map[string][]string{
 	"ex":  {"lower", "upper", "mixed"},
@@ -69,6 +76,8 @@ var labSpell = map[string][]string{
 	"sd":  {"lower", "upper", "alabel", "alabelup"},
 	"di":  {"lower", "alabel", "alabelup"},
 	"gs":  {"lower", "upper", "alabel"},
+	"il":  {"lower", "upper", "updot", "updotnfd"},
+	"root": {"lower"},
 }
 
 func asciiUpper(s string) string {
@@ -132,6 +141,27 @@ func spell(canon, s string) (string, error) {
 		}
 		if norm.NFC.String(strings.ToLower(d)) != canon {
 			return "", fmt.Errorf("%+q: upperd does not fold back", canon)
+		}
+		return d, nil
+	case "updot", "updotnfd":
+		// the first i written as U+0130 LATIN CAPITAL LETTER I WITH DOT ABOVE (its lower case is i);
+		// decomposed it is I + U+0307, and lower-casing THAT before composing gives i + U+0307
+		if !strings.Contains(canon, "i") {
+			return "", fmt.Errorf("%+q has no i", canon)
+		}
+		u := strings.Replace(canon, "i", "\u0130", 1)
+		if norm.NFC.String(u) != u || lowNFC(u) != canon {
+			return "", fmt.Errorf("%+q: dotted capital I spelling does not fold back", canon)
+		}
+		if s == "updot" {
+			return u, nil
+		}
+		d := norm.NFD.String(u)
+		if d == u || lowNFC(d) != canon {
+			return "", fmt.Errorf("%+q: decomposed dotted capital I does not fold back", canon)
+		}
+		if norm.NFC.String(strings.ToLower(d)) == canon {
+			return "", fmt.Errorf("%+q: the order of lower-casing and composing does not matter for this spelling", canon)
 		}
 		return d, nil
 	case "alabel", "alabelup", "alabelmix":
